@@ -118,7 +118,7 @@ def types():
 def pool():
     global _POOL
     if _POOL is None:
-        _POOL = concurrent.futures.ThreadPoolExecutor(max_workers=2, thread_name_prefix="c18")
+        _POOL = concurrent.futures.ThreadPoolExecutor(max_workers=4, thread_name_prefix="c18")
     return _POOL
 
 
@@ -321,7 +321,7 @@ class Env:
             await wrapped()
 
         try:
-            asyncio.run_coroutine_threadsafe(bridge(), self.loop).result(timeout=5)
+            asyncio.run_coroutine_threadsafe(bridge(), self.loop).result(timeout=30)
         except BaseException as exc:  # noqa: BLE001
             return "err:" + type(exc).__name__
         return seen.get("w", "norun")
